@@ -234,8 +234,12 @@ func (ft *FT) addObl(fr *frame, kind, detail, guard, goal string, src string, ta
 	}
 	o := &Obl{Name: name, Kind: kind, Fn: ft.name, NFacts: len(ft.facts), Guard: guard, Goal: goal, Src: src, Tags: tags, Hints: hints, Pos: pos}
 	ft.obls = append(ft.obls, o)
-	// assert-then-assume
-	ft.fact("(=> " + guard + " " + goal + ")")
+	// assert-then-assume (not for the frame-reporting kinds: assuming "this call is unreachable" would hide everything after it)
+	switch kind {
+	case "extcall", "nondet", "global-read", "global-write":
+	default:
+		ft.fact("(=> " + guard + " " + goal + ")")
+	}
 	return o
 }
 
@@ -945,7 +949,7 @@ func (fr *frame) doPhi(phi *ssa.Phi, preds []*ssa.BasicBlock, guards []string, s
 func (fr *frame) loopHeader(h *ssa.BasicBlock, body map[*ssa.BasicBlock]bool, st *State, reach string) *State {
 	ft := fr.ft
 	ord := fr.loopOrd[h]
-	invs := fr.loopInvs(ord)
+	invs := fr.loopInvsAt(h, ord)
 	// inv-init
 	for i, cl := range invs {
 		env := fr.invEnv(h, st)
@@ -1045,7 +1049,7 @@ func (fr *frame) backEdge(src, h *ssa.BasicBlock, st *State) {
 	if guard == "" {
 		return
 	}
-	invs := fr.loopInvs(ord)
+	invs := fr.loopInvsAt(h, ord)
 	for _, lf := range fr.loopFrames[h] {
 		cur := ft.stateGet(st, lf.name, lf.sort)
 		ft.addObl(fr, "inv-pres", fmt.Sprintf("%sL%d.frame(%s)", fr.tag, ord, strings.TrimPrefix(lf.name, "H|")), guard,
@@ -1241,6 +1245,40 @@ func ftName(fn *ssa.Function, c *Contract) string {
 		return c.Key
 	}
 	return fn.String()
+}
+
+var autoRangeInv = func() *Clause {
+	e, err := ParseExpr("0 <= $i && $i <= len($range)")
+	if err != nil {
+		panic(err)
+	}
+	return &Clause{Src: "0 <= $i && $i <= len($range)   (automatic: range loop over a slice)", E: e, Name: "auto"}
+}()
+
+// loopInvsAt adds the automatic bound invariant of a range-over-slice loop to the annotated invariants.
+func (fr *frame) loopInvsAt(h *ssa.BasicBlock, ord int) []*Clause {
+	invs := fr.loopInvs(ord)
+	for _, in := range h.Instrs {
+		phi, ok := in.(*ssa.Phi)
+		if !ok {
+			break
+		}
+		if phi.Comment == "rangeindex" {
+			// only when the ranged slice can be identified
+			for _, ref := range *phi.Referrers() {
+				if bo, ok := ref.(*ssa.BinOp); ok {
+					for _, r2 := range *bo.Referrers() {
+						if ia, ok := r2.(*ssa.IndexAddr); ok && ia.Index == ssa.Value(bo) {
+							if _, isSlice := ia.X.Type().Underlying().(*types.Slice); isSlice {
+								return append([]*Clause{autoRangeInv}, invs...)
+							}
+						}
+					}
+				}
+			}
+		}
+	}
+	return invs
 }
 
 func (fr *frame) loopInvs(ord int) []*Clause {
